@@ -178,7 +178,7 @@ class Exec:
     # ------------------------------------------------------------------ helpers
     def fresh(self, prefix, sort=None):
         self.fresh_n += 1
-        return z3.Const('%s!%d' % (prefix, self.fresh_n), sort or z3.IntSort())
+        return z3.Const('%s!%d' % (prefix, self.fresh_n), sort if sort is not None else z3.IntSort())
 
     def new_frame(self):
         self.fid += 1
